@@ -146,6 +146,37 @@ def ev_pickle(ns, name):
     return "ok" if not bad else "restored elsewhere: %s" % sorted(set(bad))
 
 
+def ev_route(ns, name):
+    """Every lookup route of a table hands out that table's own atom objects."""
+    pt = ns["pt"]
+    from periodictable import core
+    T = pt.elements if name == "public" else _tab(ns, name)
+    bad = []
+    def same(route, got, own):
+        if got is not own:
+            bad.append(route)
+    for el in T:
+        Z = el.number
+        if el.table != name:
+            bad.append("iter:%s@%s" % (el.symbol, el.table))
+        same("T[Z]", T[Z], el)
+        same("T.symbol()", T.symbol(el.symbol), el)
+        same("T.name()", T.name(el.name), el)
+        same("T.<symbol>", getattr(T, el.symbol), el)
+        same("T.isotope(symbol)", T.isotope(el.symbol), el)
+        if el.isotopes:
+            A = el.isotopes[0]
+            same("T.isotope('A-X')", T.isotope("%d-%s" % (A, el.symbol)), el[A])
+    for sym, nm, A in (("D", "deuterium", 2), ("T", "tritium", 3)):
+        own = T.H[A]
+        same("T.%s" % sym, getattr(T, sym), own)
+        same("T.symbol(%r)" % sym, T.symbol(sym), own)
+        same("T.name(%r)" % nm, T.name(nm), own)
+        same("T.isotope(%r)" % sym, T.isotope(sym), own)
+        same("T[1][%d]" % A, T[1][A], own)
+    return "ok" if not bad else "foreign or different atoms via: %s" % sorted(set(bad))[:6]
+
+
 def ev_read(ns, name, g):
     T = _tab(ns, name)
     d = c09.digest_table(ns["pt"], T, 0, groups=[g])
@@ -171,7 +202,7 @@ class PrivModel(histmc.HistModel):
 
     def namespace(self):
         pt = load_pt()
-        return dict(pt=pt, _printed=c09._printed, _new=ev_new, _formula=ev_formula, _pickle=ev_pickle,
+        return dict(pt=pt, _printed=c09._printed, _new=ev_new, _formula=ev_formula, _pickle=ev_pickle, _route=ev_route,
                     _read=ev_read, _mut=ev_mut, _mutated=set())
 
     def events(self):
@@ -195,6 +226,10 @@ class PrivModel(histmc.HistModel):
             evs.append(Event("formula:T1", "_formula(globals(), 'T1')", True, "formula"))
             evs.append(Event("formula:public", "_formula(globals(), 'public')", True, "formula"))
             evs.append(Event("pickle:T1", "_pickle(globals(), 'T1')", True, "pickle"))
+            # every lookup route (index, symbol, name, attribute, isotope string, D/T aliases) on a private and on the
+            # public table, in both orders
+            evs.append(Event("route:T1", "_route(globals(), 'T1')", True, "route"))
+            evs.append(Event("route:public", "_route(globals(), 'public')", True, "route"))
             self._events = evs
         return self._events
 
@@ -220,7 +255,7 @@ class PrivModel(histmc.HistModel):
             if parts[0] == "mut":
                 return n not in hist
             return True
-        if n in ("formula:T1", "pickle:T1"):
+        if n in ("formula:T1", "pickle:T1", "route:T1"):
             return "new:T1" in hist
         return True
 
@@ -395,7 +430,7 @@ class Oracle(object):
             return "ok:'done'"
         if p[0] == "mut":
             return "ok:'mutated'"
-        if p[0] in ("formula", "pickle"):
+        if p[0] in ("formula", "pickle", "route"):
             return "ok:'ok'"
         if p[0] == "read":
             g, t = p[1], p[2]
@@ -426,6 +461,10 @@ class Oracle(object):
             elif p[0] == "formula":
                 T = "pt.elements" if p[1] == "public" else p[1]
                 lines.append("print([(a, a.table if hasattr(a,'table') else None) for a in pt.formula('Fe[56]{2+}2O3', table=%s).atoms])" % T)
+            elif p[0] == "route":
+                T = "pt.elements" if p[1] == "public" else p[1]
+                lines.append("print([(a, a.table) for a in (%s.name('iron'), %s.symbol('Fe'), %s[26], %s.isotope('Fe'), "
+                             "%s.name('deuterium').element)])" % (T, T, T, T, T))
             elif p[0] == "pickle":
                 lines.append("print(pickle.loads(pickle.dumps(%s.Fe[56].ion[3])) is %s.Fe[56].ion[3])" % (p[1], p[1]))
         lines.append("print('public:', pt.Fe.covalent_radius, pt.Fe.crystal_structure, pt.Fe.neutron.b_c, pt.Cu.K_alpha, "
@@ -514,7 +553,7 @@ def explore_sub(args):
     ex = histmc.Explorer(model, jobs).run(depth=depth, on_state=oracle, probe_levels=None)
     if ex.nondeterminism:
         raise MachineryError("replay reached a different key: %r" % ex.nondeterminism[:2])
-    nsec = ex.validate_seconds(max_level=(2 if quick else None))
+    nsec = ex.validate_seconds(max_level=(2 if quick else None), oracle=oracle)   # second representatives are judged too
     if ex.key_conflicts:
         raise MachineryError("canonical key too coarse (%s): %r" % (label, ex.key_conflicts[:2]))
     acc.info["states:" + label] = len(ex.rep)
